@@ -2,6 +2,8 @@ import RpmVerif.Lemmas.Builder
 import RpmVerif.Lemmas.BuilderFiles
 import RpmVerif.Lemmas.RpmValid
 import RpmVerif.Model.Accessors
+import RpmVerif.Lemmas.WithFile
+import RpmVerif.Spec.FileOptions
 /-!
 # C06 — everything given to the builder is read back unchanged
 
@@ -12,6 +14,12 @@ integers in range — and the header below 2 GiB) the written package re-parses 
 and that is the value supplied to the builder (`readback_*`). The per-file data is also proved through the accessor
 users call, `get_file_entries()` (`readback_file_entries`, `…_build`, `…_reparsed`): one record per builder file with
 its exact path, mode, owner, group, clamped mtime, size, flags, digest, capabilities and link target.
+
+The builder FRONT-END (`FileOptions::new`, the `FileOptionsBuilder` setters, `PackageBuilder::with_file`; model
+`Model/WithFile.lean`) is tied to this at the end of the file: `with_file_readback` (sequence of calls → accessors),
+`with_file_inherit_mode` / `with_file_inherit_regular` / `explicit_mode_wins` (which mode word is stored),
+`readback_flags_of_setters`, `defaults_readback`, and the translator checks `file_option_defaults_standard` /
+`file_option_setters_standard` of the table scraped from types.rs.
 -/
 namespace RpmVerif.C06
 open RpmVerif.Hdr RpmVerif.Bld RpmVerif.Gen RpmVerif.Acc
@@ -741,5 +749,274 @@ example : ∃ k, depCtor k [119] [49] = some ⟨[119], 0, []⟩ ∧
   simp only at hn' hf' hv'
   rw [← hn', ← hf', ← hv'] at hm
   exact hm
+/-! ## the builder front-end: `FileOptions::new`, its setters, `with_file` (coverage gaps G5, G11) -/
+open RpmVerif.WithFile RpmVerif.FileMode
+
+/-! ### the builder front-end: `FileOptions::new`, its setters, `with_file` (coverage gaps G5, G11) -/
+
+/-- **the scraped defaults are the documented ones**: root / root, no link target, regular 0o664 (only used when the mode
+is not inherited — it is), no flags, inherit, no capabilities, every verify flag -/
+theorem file_option_defaults_standard (dest : Bytes) :
+    FileOpts.new dest = ⟨dest, FileOptionsSpec.root, FileOptionsSpec.root, [], .regular 0o664, 0, true, none, FileVerifyFlags.all⟩ := rfl
+
+/-- **the scraped `insert(..)` arguments are rpm's attribute bits of the directive each setter stands for** -/
+theorem file_option_setters_standard : Gen.fileOptionSetters = FileOptionsSpec.settersStd := rfl
+
+/-- the other setters have the shape the model writes out (checked by the scraper on every run) -/
+theorem file_option_setters_shape :
+    Gen.fileOptionPlainSettersAssign = true ∧ Gen.fileOptionModeSetterClearsInherit = true ∧
+    Gen.fileOptionCapsSetterValidates = true ∧ Gen.fileOptionNoOtherSetters = true ∧
+    Gen.fileOptionsNewDestIsArg = true ∧ Gen.fileOptionsNewCapsIsNone = true := by decide
+
+
+/-- what a successful call stored: the source was readable with an mtime a `Timestamp` can hold, the setter chain and the
+destination were accepted, and the entry carries exactly the source's data and the options' fields -/
+theorem runCall_ok {sha256hex : Bytes → Bytes} {valid : Bytes → Bool} {c : Call} {e : FileE}
+    (h : runCall sha256hex valid c = .ok e) :
+    ∃ f o cpio dir base, c.src = .readable f ∧ 0 ≤ f.mtime.secs ∧ f.mtime.secs < 4294967296 ∧
+      applySetters valid c.setters (FileOpts.new c.dest) = .ok o ∧ AddData.addData c.dest = .ok (cpio, dir, base) ∧
+      e = entryFor sha256hex f o cpio dir base := by
+  unfold runCall at h
+  cases ho : applySetters valid c.setters (FileOpts.new c.dest) with
+  | ok o =>
+    rw [ho] at h
+    obtain ⟨f, cpio, dir, base, hs, h0, h1, ha, he⟩ := withFile_ok h
+    have hd : o.destination = c.dest := applySetters_keeps_dest ho
+    exact ⟨f, o, cpio, dir, base, hs, h0, h1, rfl, hd ▸ ha, he⟩
+  | err x => rw [ho] at h; cases h
+  | panic p => rw [ho] at h; cases h
+
+/-- **inherited mode** (no `mode(..)` in the chain): the stored mode word is the source's `st_mode`, low 16 bits — file type
+and all twelve permission bits (set-uid, set-gid, sticky included), whatever the type -/
+theorem with_file_inherit_mode {sha256hex : Bytes → Bytes} {valid : Bytes → Bool} {c : Call} {f : SrcFile} {e : FileE}
+    (hsrc : c.src = .readable f) (hnm : ∀ s ∈ c.setters, s.isMode = false)
+    (h : runCall sha256hex valid c = .ok e) : e.mode = f.stMode % 65536 := by
+  obtain ⟨f', o, cpio, dir, base, hs, _, _, ho, _, rfl⟩ := runCall_ok h
+  rw [hsrc] at hs; cases hs
+  have := (applySetters_keeps_mode ho hnm).2
+  have hi : o.inheritPermissions = true := by rw [this]; rfl
+  simp only [entryFor, hi, if_true]
+
+/-- **a regular source file** with permission bits `p`: the stored mode is `0o100000 | p`, which `FileMode::from` reads
+back as `Regular { permissions: p }` — this is the word `readback_modes` returns for the file -/
+theorem with_file_inherit_regular {sha256hex : Bytes → Bytes} {valid : Bytes → Bool} {c : Call} {f : SrcFile} {e : FileE}
+    (p : Nat) (hp : p < 4096) (hst : f.stMode = S_IFREG ||| p)
+    (hsrc : c.src = .readable f) (hnm : ∀ s ∈ c.setters, s.isMode = false)
+    (h : runCall sha256hex valid c = .ok e) :
+    e.mode = 0o100000 ||| p ∧ fromU16 e.mode = .regular p := by
+  have hm := with_file_inherit_mode hsrc hnm h
+  have hlt : (0o100000 ||| p : Nat) < 2 ^ 16 := Nat.or_lt_two_pow (by decide) (by omega)
+  have e1 : e.mode = 0o100000 ||| p := by rw [hm, hst]; exact Nat.mod_eq_of_lt hlt
+  refine ⟨e1, ?_⟩
+  rw [e1]
+  have hpp : p &&& 0o7777 = p := by
+    have : (0o7777 : Nat) = 2 ^ 12 - 1 := by decide
+    rw [this, Nat.and_two_pow_sub_one_eq_mod]; exact Nat.mod_eq_of_lt hp
+  have hty : (0o100000 ||| p) &&& 0o170000 = 0o100000 := by
+    rw [Nat.and_or_distrib_right]
+    have h0 : p &&& 0o170000 = 0 := by rw [← hpp]; exact perm_and_type p
+    have h1 : (0o100000 &&& 0o170000 : Nat) = 0o100000 := by decide
+    rw [h0, h1, Nat.or_zero]
+  have hpm : (0o100000 ||| p) &&& 0o7777 = p := by
+    rw [Nat.and_or_distrib_right]
+    have h1 : (0o100000 &&& 0o7777 : Nat) = 0 := by decide
+    rw [h1, hpp, Nat.zero_or]
+  rcases fromU16_cases (0o100000 ||| p) with ⟨h1, _⟩ | ⟨_, e2⟩ | ⟨h1, _⟩ | ⟨_, h2, _⟩
+  · rw [hty] at h1; cases h1
+  · rw [e2, hpm]
+  · rw [hty] at h1; cases h1
+  · exact absurd hty h2
+
+/-- **an explicit mode wins**: when the chain contains `mode(m)` and no later `mode(..)`, the stored mode word is `m`'s
+(`raw_mode()`), whatever the source file's `st_mode` and whatever other setters come before or after it -/
+theorem explicit_mode_wins {sha256hex : Bytes → Bytes} {valid : Bytes → Bool} {c : Call} {e : FileE}
+    (pre post : List Setter) (m : FileMode) (hc : c.setters = pre ++ .mode m :: post)
+    (hpost : ∀ s ∈ post, s.isMode = false) (h : runCall sha256hex valid c = .ok e) : e.mode = rawMode m := by
+  obtain ⟨f, o, cpio, dir, base, _, _, _, ho, _, rfl⟩ := runCall_ok h
+  rw [hc] at ho
+  obtain ⟨o₁, _, h2⟩ := applySetters_append_ok ho
+  obtain ⟨o₂, h3, h4⟩ := applySetters_cons_ok h2
+  obtain ⟨a, b⟩ := applySetters_keeps_mode h4 hpost
+  have hclr : Gen.fileOptionModeSetterClearsInherit = true := by decide
+  simp only [Setter.apply, Out.ok.injEq] at h3
+  subst h3
+  simp only [setMode, hclr, if_true] at a b
+  simp only [entryFor, b, a, Bool.false_eq_true, if_false]
+
+/-- `mode(i32)` as callers write it (`From<i32>`): the word read back is the integer's low 16 bits -/
+theorem explicit_mode_i32 {sha256hex : Bytes → Bytes} {valid : Bytes → Bool} {c : Call} {e : FileE}
+    (pre post : List Setter) (n : Int) (hc : c.setters = pre ++ .mode (fromI32 n) :: post)
+    (hpost : ∀ s ∈ post, s.isMode = false) (h : runCall sha256hex valid c = .ok e) : e.mode = asU16 n := by
+  rw [explicit_mode_wins pre post _ hc hpost h, rawMode_fromI32]
+
+/-- **header mode = cpio mode, for EVERY `i32` given to `mode(..)`** (also those outside 16 bits, which `From<i32>` turns into
+`FileMode::Invalid { raw_mode }`): the RPMTAG_FILEMODES word (`u16::from`) and the cpio `c_mode` (`u32::from`) `prepare_data`
+derives from the stored mode are the same 16-bit word, the integer's low 16 bits — e.g. `mode(0o271664)` is 0o071664 in both
+places, `mode(-1)` is 0o177777, `mode(65536 + 0o100644)` is 0o100644 -/
+theorem mode_header_eq_cpio (n : Int) :
+    cpioModeWord (fromI32 n) = headerModeWord (fromI32 n) ∧ headerModeWord (fromI32 n) = asU16 n ∧ asU16 n < 65536 :=
+  ⟨rfl, rawMode_fromI32 n, asU16_lt n⟩
+
+/-- … and that word is what the entry of a call whose last `mode(..)` is `mode(n)` stores (hence what `readback_modes` returns
+and what the archive entry carries) -/
+theorem mode_header_eq_cpio_stored {sha256hex : Bytes → Bytes} {valid : Bytes → Bool} {c : Call} {e : FileE}
+    (pre post : List Setter) (n : Int) (hc : c.setters = pre ++ .mode (fromI32 n) :: post)
+    (hpost : ∀ s ∈ post, s.isMode = false) (h : runCall sha256hex valid c = .ok e) :
+    e.mode = headerModeWord (fromI32 n) ∧ e.mode = cpioModeWord (fromI32 n) ∧ e.mode = asU16 n ∧ e.mode < 65536 := by
+  have h1 := explicit_mode_i32 pre post n hc hpost h
+  obtain ⟨a, b, c'⟩ := mode_header_eq_cpio n
+  exact ⟨by rw [h1, b], by rw [h1, a, b], h1, by rw [h1]; exact c'⟩
+
+theorem readback_verifyflags (x : Ctx) (hne : x.c.files.isEmpty = false) :
+    getU32Array (hdrOf x) IndexTag.RPMTAG_FILEVERIFYFLAGS = .ok (x.c.files.map (·.verifyFlags)) :=
+  readback_file_array x IndexData.asU32Array (i := 34) rfl hne rfl
+
+/-- **`with_file` calls → accessors.** For the builder state a sequence of `FileOptions::new(dest).<setters>` +
+`with_file(source, ..)` calls leaves behind (every call with `?`), the per-file arrays of the built header are the stored
+entries' fields in `BTreeMap` order, `get_file_paths()` lists `dir ++ base name` (the directory of every entry IS registered:
+no hypothesis), and every stored entry is the entry of one of the calls: its source was readable, mtime inside 1970..2106,
+setter chain and destination accepted, and it carries that source's size / mtime / digest and those options' fields
+(`entryFor`). -/
+theorem with_file_readback (x : Ctx) (sha256hex : Bytes → Bytes) (valid : Bytes → Bool) (calls : List Call) (st : BState)
+    (hst : buildState sha256hex valid calls BState.empty = .ok st)
+    (hf : x.c.files = st.files) (hdir : x.c.directories = st.directories) (hne : x.c.files.isEmpty = false) :
+    getU16Array (hdrOf x) IndexTag.RPMTAG_FILEMODES = .ok (x.c.files.map (·.mode)) ∧
+    getU32Array (hdrOf x) IndexTag.RPMTAG_FILEMTIMES = .ok (x.c.files.map fun f => clampMtime x.c.sourceDate f.mtime) ∧
+    getU32Array (hdrOf x) IndexTag.RPMTAG_FILEFLAGS = .ok (x.c.files.map (·.flags)) ∧
+    getStringArray (hdrOf x) IndexTag.RPMTAG_FILEUSERNAME = .ok (x.c.files.map (·.user)) ∧
+    getStringArray (hdrOf x) IndexTag.RPMTAG_FILEGROUPNAME = .ok (x.c.files.map (·.group)) ∧
+    getStringArray (hdrOf x) IndexTag.RPMTAG_FILELINKTOS = .ok (x.c.files.map (·.link)) ∧
+    getStringArray (hdrOf x) IndexTag.RPMTAG_FILEDIGESTS = .ok (x.c.files.map (·.shaHex)) ∧
+    getU32Array (hdrOf x) IndexTag.RPMTAG_FILEVERIFYFLAGS = .ok (x.c.files.map (·.verifyFlags)) ∧
+    getFilePaths (hdrOf x) = .ok (x.c.files.map fun f => pathJoin f.dir f.baseName) ∧
+    ∀ e ∈ x.c.files, ∃ c ∈ calls, ∃ f o cpio dir base, c.src = .readable f ∧ 0 ≤ f.mtime.secs ∧ f.mtime.secs < 4294967296 ∧
+      applySetters valid c.setters (FileOpts.new c.dest) = .ok o ∧ AddData.addData c.dest = .ok (cpio, dir, base) ∧
+      e = entryFor sha256hex f o cpio dir base := by
+  obtain ⟨hfrom, hdirs⟩ := buildState_ok hst
+  have hd : ∀ f ∈ x.c.files, f.dir ∈ x.c.directories := by
+    rw [hf, hdir]; exact hdirs (fun _ h => by cases h)
+  refine ⟨readback_modes x hne, readback_mtimes x hne, readback_fileflags x hne, readback_users x hne, readback_groups x hne,
+    readback_linktos x hne, readback_digests x hne, readback_verifyflags x hne, readback_paths x hne hd, ?_⟩
+  intro e he
+  rw [hf] at he
+  rcases hfrom e he with h0 | ⟨c, hc, hr⟩
+  · cases h0
+  · exact ⟨c, hc, runCall_ok hr⟩
+
+/-- **flags**: the FILEFLAGS word of every file is the OR of the attribute bits of the `is_*` setters its options chain
+contained — the bits of `Spec/FileOptions.lean` (`file_option_setters_standard`) -/
+theorem readback_flags_of_setters (x : Ctx) (sha256hex : Bytes → Bytes) (valid : Bytes → Bool) (calls : List Call) (st : BState)
+    (hst : buildState sha256hex valid calls BState.empty = .ok st)
+    (hf : x.c.files = st.files) (hne : x.c.files.isEmpty = false) :
+    getU32Array (hdrOf x) IndexTag.RPMTAG_FILEFLAGS = .ok (x.c.files.map (·.flags)) ∧
+    ∀ e ∈ x.c.files, ∃ c ∈ calls, runCall sha256hex valid c = .ok e ∧ e.flags = settersFlags 0 c.setters := by
+  refine ⟨readback_fileflags x hne, ?_⟩
+  intro e he
+  rw [hf] at he
+  rcases (buildState_ok hst).1 e he with h0 | ⟨c, hc, hr⟩
+  · cases h0
+  · obtain ⟨f, o, cpio, dir, base, _, _, _, ho, _, rfl⟩ := runCall_ok hr
+    exact ⟨c, hc, hr, applySetters_flag ho⟩
+
+/-- each setter's contribution, by name of the directive -/
+theorem setterBits_standard :
+    setterBits 0 = FileOptionsSpec.RPMFILE_DOC ∧ setterBits 1 = FileOptionsSpec.RPMFILE_CONFIG ∧
+    setterBits 2 = FileOptionsSpec.RPMFILE_CONFIG ||| FileOptionsSpec.RPMFILE_NOREPLACE ∧
+    setterBits 3 = FileOptionsSpec.RPMFILE_GHOST ∧ setterBits 4 = FileOptionsSpec.RPMFILE_LICENSE ∧
+    setterBits 5 = FileOptionsSpec.RPMFILE_README ∧ ∀ i, 6 ≤ i → setterBits i = 0 := by
+  refine ⟨rfl, rfl, rfl, rfl, rfl, rfl, ?_⟩
+  intro i hi
+  unfold setterBits
+  rw [List.getElem?_eq_none (by simpa [Gen.fileOptionSetters] using hi)]
+  rfl
+
+/-- **defaults**: a package whose only file was added with bare `FileOptions::new(dest)` reads back owner and group `root`,
+no flags, no link target, every verify flag, the source's own mode word and (clamped) mtime, and no FILECAPS tag -/
+theorem defaults_readback (x : Ctx) (sha256hex : Bytes → Bytes) (valid : Bytes → Bool) (src : Source) (dest : Bytes) (st : BState)
+    (hst : buildState sha256hex valid [⟨src, dest, []⟩] BState.empty = .ok st)
+    (hf : x.c.files = st.files) :
+    ∃ f, src = .readable f ∧
+    getStringArray (hdrOf x) IndexTag.RPMTAG_FILEUSERNAME = .ok [FileOptionsSpec.root] ∧
+    getStringArray (hdrOf x) IndexTag.RPMTAG_FILEGROUPNAME = .ok [FileOptionsSpec.root] ∧
+    getU32Array (hdrOf x) IndexTag.RPMTAG_FILEFLAGS = .ok [0] ∧
+    getStringArray (hdrOf x) IndexTag.RPMTAG_FILELINKTOS = .ok [[]] ∧
+    getU32Array (hdrOf x) IndexTag.RPMTAG_FILEVERIFYFLAGS = .ok [FileVerifyFlags.all] ∧
+    getU16Array (hdrOf x) IndexTag.RPMTAG_FILEMODES = .ok [f.stMode % 65536] ∧
+    getU32Array (hdrOf x) IndexTag.RPMTAG_FILEMTIMES = .ok [clampMtime x.c.sourceDate f.mtime.secs.toNat] ∧
+    getStringArray (hdrOf x) IndexTag.RPMTAG_FILECAPS = .err "notfound" := by
+  obtain ⟨e, hr, h2⟩ := buildState_cons_ok hst
+  simp only [buildState, Out.ok.injEq] at h2
+  have hfiles : x.c.files = [e] := by rw [hf, ← h2]; rfl
+  obtain ⟨f, o, cpio, dir, base, hs, _, _, ho, _, he⟩ := runCall_ok hr
+  simp only [applySetters, Out.ok.injEq] at ho
+  have hne : x.c.files.isEmpty = false := by rw [hfiles]; rfl
+  have hcaps : usesCaps x.c = false := by
+    simp only [usesCaps, hfiles, List.any_cons, List.any_nil, Bool.or_false, he, entryFor, ← ho]
+    rfl
+  refine ⟨f, hs, ?_, ?_, ?_, ?_, ?_, ?_, ?_, ?_⟩
+  · rw [readback_users x hne, hfiles, he, ← ho]; rfl
+  · rw [readback_groups x hne, hfiles, he, ← ho]; rfl
+  · rw [readback_fileflags x hne, hfiles, he, ← ho]; rfl
+  · rw [readback_linktos x hne, hfiles, he, ← ho]; rfl
+  · rw [readback_verifyflags x hne, hfiles, he, ← ho]; rfl
+  · rw [readback_modes x hne, hfiles, he, ← ho]; rfl
+  · rw [readback_mtimes x hne, hfiles, he, ← ho]; rfl
+  · rw [readback_caps x hne, hcaps]; rfl
+
+
+/-! ### non-vacuity for the front-end: a set-uid executable (mtime 2017), options chains with flags / owner / explicit
+mode / capabilities / verify flags, a duplicate destination (the first call's entry stays), a FIFO source -/
+def srcA : SrcFile := ⟨[1, 2, 3], 0o104755, ⟨1500000000, 5, by decide⟩⟩
+def srcFifo : SrcFile := ⟨[7], 0o010644, ⟨0, 0, by decide⟩⟩
+/-- `FileOptions::new("/u/x").is_config_noreplace().user("u").is_doc()` -/
+def callA : Call := ⟨.readable srcA, [47, 117, 47, 120], [.flag 2, .user [117], .flag 0]⟩
+/-- `FileOptions::new("./a").mode(0o100644).group("g").caps("=p")?.verify(3)` -/
+def callB : Call := ⟨.readable srcA, [46, 47, 97], [.mode (fromI32 0o100644), .group [103], .caps [61, 112], .verify 3]⟩
+def entryA : FileE := ⟨[46, 47, 117, 47, 120], [47, 117, 47], [120], 3, 0o104755, [117], sRoot, [], 19, none, FileVerifyFlags.all, 1500000000, sha64⟩
+def entryB : FileE := ⟨[46, 47, 97], [47], [97], 3, 0o100644, sRoot, [103], [], 0, some [61, 112], 3, 1500000000, sha64⟩
+
+example : runCall (fun _ => sha64) (fun _ => true) callA = .ok entryA := by decide
+example : runCall (fun _ => sha64) (fun _ => true) callB = .ok entryB := by decide
+/-- the state: `BTreeMap` order ("./a" before "./u/x"), the second `callA` does not replace the first -/
+theorem demo_state : buildState (fun _ => sha64) (fun _ => true) [callA, callB, { callA with setters := [] }] BState.empty =
+    .ok ⟨[entryB, entryA], [[47], [47, 117, 47]]⟩ := by decide
+/-- `with_file_inherit_mode` at the sample: 0o104755 (set-uid kept) -/
+example : entryA.mode = srcA.stMode % 65536 :=
+  with_file_inherit_mode (c := callA) rfl (by decide) (show runCall (fun _ => sha64) (fun _ => true) callA = .ok entryA by decide)
+example : entryA.mode = 0o100000 ||| 0o4755 ∧ fromU16 entryA.mode = .regular 0o4755 :=
+  with_file_inherit_regular (c := callA) 0o4755 (by decide) (by decide) rfl (by decide)
+    (show runCall (fun _ => sha64) (fun _ => true) callA = .ok entryA by decide)
+/-- `explicit_mode_wins` at the sample: the set-uid source is stored as 0o100644 -/
+example : entryB.mode = rawMode (fromI32 0o100644) :=
+  explicit_mode_wins (c := callB) [] [.group [103], .caps [61, 112], .verify 3] _ rfl (by decide)
+    (show runCall (fun _ => sha64) (fun _ => true) callB = .ok entryB by decide)
+/-- `mode_header_eq_cpio` at the words of the seeded change C09-7 and its neighbours -/
+example : headerModeWord (fromI32 0o271664) = 0o071664 ∧ cpioModeWord (fromI32 0o271664) = 0o071664 ∧
+    headerModeWord (fromI32 2147483647) = 65535 ∧ headerModeWord (fromI32 (-1)) = 65535 ∧ headerModeWord (fromI32 (-32769)) = 32767 ∧
+    headerModeWord (fromI32 (65536 + 0o100644)) = 0o100644 ∧ fromI32 0o271664 = .invalid 0o271664 := by decide
+/-- a FIFO source is read and stored with the FIFO's own mode word 0o010644 (not a type `FileMode` knows) -/
+example : (withFile (fun _ => sha64) (.readable srcFifo) (FileOpts.new [47, 97])).toOption.map (·.mode) = some 0o010644 := by decide
+/-- `with_file_readback` / `readback_flags_of_setters` at the sample configuration -/
+def demoCtx : Ctx := ⟨{ sampleCfg with files := [entryB, entryA], directories := [[47], [47, 117, 47]] }, 1700000000, [97], [98]⟩
+example : getU16Array (hdrOf demoCtx) IndexTag.RPMTAG_FILEMODES = .ok [0o100644, 0o104755] :=
+  (with_file_readback demoCtx _ _ _ _ demo_state rfl rfl rfl).1
+example : getU32Array (hdrOf demoCtx) IndexTag.RPMTAG_FILEFLAGS = .ok [0, FileOptionsSpec.RPMFILE_CONFIG ||| FileOptionsSpec.RPMFILE_NOREPLACE ||| FileOptionsSpec.RPMFILE_DOC] :=
+  (readback_flags_of_setters demoCtx _ _ _ _ demo_state rfl rfl).1
+example : settersFlags 0 callA.setters = 19 ∧ settersFlags 0 callB.setters = 0 := by decide
+/-- `defaults_readback` at a sample: a single bare `FileOptions::new("/a")` call -/
+def entryC : FileE := ⟨[46, 47, 97], [47], [97], 3, 0o104755, sRoot, sRoot, [], 0, none, FileVerifyFlags.all, 1500000000, sha64⟩
+theorem demo_state_bare : buildState (fun _ => sha64) (fun _ => true) [⟨.readable srcA, [47, 97], []⟩] BState.empty =
+    .ok ⟨[entryC], [[47]]⟩ := by decide
+def demoCtxBare : Ctx := ⟨{ sampleCfg with files := [entryC], directories := [[47]] }, 1700000000, [97], [98]⟩
+example : ∃ f, Source.readable srcA = .readable f ∧
+    getStringArray (hdrOf demoCtxBare) IndexTag.RPMTAG_FILEUSERNAME = .ok [FileOptionsSpec.root] ∧
+    getStringArray (hdrOf demoCtxBare) IndexTag.RPMTAG_FILEGROUPNAME = .ok [FileOptionsSpec.root] ∧
+    getU32Array (hdrOf demoCtxBare) IndexTag.RPMTAG_FILEFLAGS = .ok [0] ∧
+    getStringArray (hdrOf demoCtxBare) IndexTag.RPMTAG_FILELINKTOS = .ok [[]] ∧
+    getU32Array (hdrOf demoCtxBare) IndexTag.RPMTAG_FILEVERIFYFLAGS = .ok [FileVerifyFlags.all] ∧
+    getU16Array (hdrOf demoCtxBare) IndexTag.RPMTAG_FILEMODES = .ok [f.stMode % 65536] ∧
+    getU32Array (hdrOf demoCtxBare) IndexTag.RPMTAG_FILEMTIMES = .ok [clampMtime demoCtxBare.c.sourceDate f.mtime.secs.toNat] ∧
+    getStringArray (hdrOf demoCtxBare) IndexTag.RPMTAG_FILECAPS = .err "notfound" :=
+  defaults_readback demoCtxBare _ _ _ _ _ demo_state_bare rfl
 
 end RpmVerif.C06
